@@ -54,7 +54,7 @@ struct c05_ghost {
   int stage; size_t fin_off;                      /* entry points */
   C05_GHOSTS_NUM C05_GHOSTS_STR
 };
-extern int g_nt; extern uint64_t g_tok;            /* containers: number of abstract tokens, the last sixteen of them (4 bits each; for the replay) */
+extern int g_nt; extern uint64_t g_tok;            /* containers, for the replay: tokens of the current loop iteration (count | DFA state at the loop head << 8; 4 bits per token) */
 extern struct c05_skip_ghost g_w;
 extern struct c05_ghost g_j;
 #define C05_GHOSTS_LEAF g_len, g_off, g_mk, g_w
@@ -142,21 +142,25 @@ enum { CQ_START = 0, CQ_OPEN = 1, CQ_AFTERV = 2, CQ_AFTERC = 3, CQ_ACC = 4, CQ_R
  * 1 open, 2 close, 3 comma, 4 colon, 5 value (not a string), 6 string value, 7 other byte, 8 end of input, 9 value that fails */
 #define C05_TOKCODE(c, close) ((c) == -1 ? 8 : (c) == (close) ? 2 : (c) == ',' ? 3 : (c) == ':' ? 4 : 7)
 #define C05_REC(code) (verif_tok = (verif_tok << 4) | (uint64_t)(code), verif_nt = verif_nt < 100 ? verif_nt + 1 : verif_nt)
-#define C05_C_SYNC (g_j.cq = verif_q, g_j.cn = verif_n, g_j.csync = verif_sync, g_j.cend = verif_end, g_nt = verif_nt, g_tok = verif_tok)
+#define C05_C_SYNC (g_j.cq = verif_q, g_j.cn = verif_n, g_j.csync = verif_sync, g_j.cend = verif_end, g_nt = verif_nt | ((verif_hq & 15) << 8), g_tok = verif_tok)
+/* loop-body start: a counterexample of a loop-contract proof shows ONE iteration from a havocked loop head; the replay needs the DFA
+ * state at that loop head (verif_hq, packed into g_nt) and the tokens of this iteration */
+#define C05_C_ITER { verif_hq = verif_q; verif_tok = 0; verif_nt = 0; C05_C_SYNC; }
 #define C05_C_ENTRY int verif_q = CQ_START; size_t verif_n = 0, verif_end = 0; bool verif_sync = 1; size_t verif_off0 = r->offset; \
-                    int verif_nt = 0; uint64_t verif_tok = 0; g_j.de = disable_extensions; C05_C_SYNC
+                    int verif_nt = 0, verif_hq = CQ_START; uint64_t verif_tok = 0; g_j.de = disable_extensions; C05_C_SYNC
 /* the opening bracket */
 #define C05_C_OPEN { verif_q = CQ_OPEN; C05_REC(1); C05_C_SYNC; }
 /* token boundary where a value or the closing bracket may come (after the opening bracket / after a comma) */
 #define C05_C_PEEK_A(close) { int verif_c = C05_PEEK(r); verif_sync = verif_sync && !C05_ISWS(verif_c); g_j.pc = verif_c; g_j.cmk = 0; \
+    if (verif_c == -1 || C05_ISCLOSER(verif_c)) C05_REC(C05_TOKCODE(verif_c, close)); \
     if (verif_q == CQ_OPEN || verif_q == CQ_AFTERC) { \
-      if (verif_c == -1 || C05_ISCLOSER(verif_c)) C05_REC(C05_TOKCODE(verif_c, close)); \
       verif_q = verif_c == -1 ? CQ_TRUNC : verif_c == (close) ? ((verif_q == CQ_OPEN || !disable_extensions) ? CQ_ACC : CQ_REJ) : C05_ISCLOSER(verif_c) ? CQ_REJ : CQ_PENDING; \
       if (verif_q == CQ_ACC) verif_end = r->offset + 1; } \
     C05_C_SYNC; C05_VARIANT; }
 /* token boundary after a value: comma or the closing bracket */
 #define C05_C_PEEK_C(close) { int verif_c = C05_PEEK(r); verif_sync = verif_sync && !C05_ISWS(verif_c); \
-    if (verif_q == CQ_AFTERV) { C05_REC(C05_TOKCODE(verif_c, close)); \
+    C05_REC(C05_TOKCODE(verif_c, close)); \
+    if (verif_q == CQ_AFTERV) { \
       verif_q = verif_c == -1 ? CQ_TRUNC : verif_c == ',' ? CQ_AFTERC : verif_c == (close) ? CQ_ACC : CQ_REJ; \
       if (verif_q == CQ_ACC) verif_end = r->offset + 1; } \
     C05_C_SYNC; }
@@ -179,10 +183,12 @@ enum { CQ_START = 0, CQ_OPEN = 1, CQ_AFTERV = 2, CQ_AFTERC = 3, CQ_ACC = 4, CQ_R
 #define C05_DICT_KEY_DONE (verif_q = verif_q == CQ_PENDING ? (verif_exc ? CQ_CHILDFAIL : key.is_string ? CQ_KEYOK : CQ_REJ) : verif_q, \
     C05_REC(verif_exc ? 9 : key.is_string ? 6 : 5), C05_C_SYNC)
 #define C05_DICT_PEEK_D { int verif_c = C05_PEEK(r); verif_sync = verif_sync && !C05_ISWS(verif_c); \
-    if (verif_q == CQ_KEYOK) { C05_REC(C05_TOKCODE(verif_c, '}')); verif_q = verif_c == -1 ? CQ_TRUNC : verif_c == ':' ? CQ_COLON : CQ_REJ; } \
+    C05_REC(C05_TOKCODE(verif_c, '}')); \
+    if (verif_q == CQ_KEYOK) { verif_q = verif_c == -1 ? CQ_TRUNC : verif_c == ':' ? CQ_COLON : CQ_REJ; } \
     C05_C_SYNC; }
 #define C05_DICT_PEEK_V { int verif_c = C05_PEEK(r); verif_sync = verif_sync && !C05_ISWS(verif_c); g_j.pc = verif_c; g_j.cmk = 0; \
-    if (verif_q == CQ_COLON) { if (verif_c == -1 || C05_ISCLOSER(verif_c)) C05_REC(C05_TOKCODE(verif_c, '}')); \
+    if (verif_c == -1 || C05_ISCLOSER(verif_c)) C05_REC(C05_TOKCODE(verif_c, '}')); \
+    if (verif_q == CQ_COLON) { \
       verif_q = verif_c == -1 ? CQ_TRUNC : C05_ISCLOSER(verif_c) ? CQ_REJ : CQ_PENDV; } \
     C05_C_SYNC; C05_VARIANT; }
 #define C05_DICT_VAL_DONE C05_C_VAL_DONE(CQ_PENDV, verif_v)
@@ -217,10 +223,10 @@ C05_ASSIGNS(r);
 
 #define C05_CONTAINER_INV(open, close, kindv) \
 __CPROVER_assigns(verif_exc, r->offset, separator, expected_separator, __CPROVER_object_whole(ret), C05_GHOSTS, \
-                  verif_q, verif_n, verif_end, verif_sync, verif_nt, verif_tok) \
+                  verif_q, verif_n, verif_end, verif_sync, verif_nt, verif_tok, verif_hq) \
 __CPROVER_loop_invariant(verif_exc == 0 && r->offset <= r->length && r->offset > verif_off0 && verif_sync) \
 __CPROVER_loop_invariant(ret->kind == (kindv) && ret->count == verif_n && !ret->is_string) \
-__CPROVER_loop_invariant(g_j.cq == verif_q && g_j.cn == verif_n && g_j.csync == verif_sync && g_j.cend == verif_end && g_nt == verif_nt && g_tok == verif_tok) \
+__CPROVER_loop_invariant(g_j.cq == verif_q && g_j.cn == verif_n && g_j.csync == verif_sync && g_j.cend == verif_end && g_nt == (verif_nt | ((verif_hq & 15) << 8)) && g_tok == verif_tok) \
 __CPROVER_loop_invariant((verif_q == CQ_OPEN && separator == (open) && expected_separator == (open)) || \
                          (expected_separator == ',' && ((separator == ',' && verif_q == CQ_AFTERC) || \
                                                         (separator == (close) && verif_q == CQ_ACC && verif_end == r->offset) || \
